@@ -49,6 +49,8 @@ pub struct Ctx {
     /// per step logs
     pub dropped: Vec<u32>,
     pub created: Vec<u32>,
+    /// (source id, clone id) of every Clone::clone in this step
+    pub clones: Vec<(u32, u32)>,
     pub tomb: bool,
     /// per behaviour tables
     pub drops: [u32; MAX_ID],
@@ -73,6 +75,7 @@ impl Ctx {
             bs_pos: 0,
             dropped: Vec::new(),
             created: Vec::new(),
+            clones: Vec::new(),
             tomb: false,
             drops: [0; MAX_ID],
             made: [0; MAX_ID],
@@ -117,6 +120,7 @@ pub fn begin_step(fresh: &[u32], pk: Option<Cb>, pn: u32, bs: &[bool]) {
         c.bs_pos = 0;
         c.dropped.clear();
         c.created.clear();
+        c.clones.clear();
         c.tomb = false;
         c.last_msg.clear();
     });
@@ -269,6 +273,7 @@ impl Clone for E16 {
         callback(Cb::Clone);
         let id = fresh_id();
         set_key(id, key_of(self.id));
+        with(|c| c.clones.push((self.id, id)));
         E16::make(id)
     }
 }
@@ -317,6 +322,7 @@ impl Clone for E1 {
         callback(Cb::Clone);
         let id = fresh_id();
         set_key(id, key_of(self.0 as u32));
+        with(|c| c.clones.push((self.0 as u32, id)));
         E1::make(id)
     }
 }
